@@ -529,7 +529,7 @@ func (n *pnode) faultSites(lastOnly bool, out *[]*pnode) {
 }
 
 func runC02(r *kit.Run) {
-	n := int64(r.Scale(24000, 6000000))
+	n := int64(r.Scale(24000, 18000000))
 	sinks := []string{"readone", "slice", "count", "reduce", "contains", "json", "itertool-reduce"}
 	for i := int64(0); i < n && !r.Stopped(); i++ {
 		if !r.Mine(i) {
